@@ -4,7 +4,8 @@
 // unit), the stub logs the call, returns a symbolic / tagged value or fails, and the harness compares the log and the record with the
 // order and presence conditions of the Recommendation (H.263 5.1, Figure 7: PSC TR PTYPE [PLUSPTYPE CPM PSBI] [CPFMT EPAR] [CPCFC ETR] [UUI] [SSS]
 // [ELNUM RLNUM] [RPSMF] [TRPI TRP] [BCI BCM] [RPRP] PQUANT [CPM PSBI] [TRB DBQUANT] PEI/PSUPP). The bits decode_picture reads itself (GN, TR,
-// ETR, PQUANT) are compared with a symbolic stream read through the real reader. Loop-free and complete over all combinations of
+// ETR, PQUANT) go through contract stubs of the reader operations (proved on the real reader in C14), which log the call and its width
+// and return symbolic values, so their place in the sequence is part of the obligation. Loop-free and complete over all combinations of
 // PTYPE / PLUSPTYPE results, follower sets, option sets, decoder options, previous headers and failing parsers.
 #[cfg(kani)]
 pub mod asm {
@@ -26,39 +27,79 @@ pub mod asm {
     pub const T_DBQ: u8 = 14;
     pub const T_PEI: u8 = 15;
 
-    pub static mut LOG: [u8; 24] = [0; 24];
-    pub static mut NLOG: usize = 0;
-    pub static mut FAIL_AT: usize = 99;
     // what the stubs return (set by the harness, symbolic)
-    pub static mut PT_OPTS: u32 = 0;
-    pub static mut PT_PLUS: bool = false;
-    pub static mut PT_FMT: u8 = 0;
-    pub static mut PT_TYPE: u8 = 0;
-    pub static mut PP_OPTS: u32 = 0;
-    pub static mut PP_FMT: u8 = 0; // 0: None
-    pub static mut PP_TYPE: u8 = 0;
-    pub static mut PP_FOLLOW: u8 = 0;
-    pub static mut PP_HASOPP: bool = false;
-    pub static mut CPM_A: u8 = 0; // first call
-    pub static mut CPM_B: u8 = 0; // second call
-    pub static mut NCPM: u8 = 0;
-    pub static mut TRP: u16 = 0;
-    pub static mut TRP_SOME: bool = false;
-    pub static mut TRB: u8 = 0;
     // arguments the stubs received
-    pub static mut ARG_PLUS_DEC: u8 = 0xFF;
-    pub static mut ARG_PLUS_PREV: u32 = 0xFFFF_FFFF;
-    pub static mut ARG_ELNUM_FOLLOW: u8 = 0xFF;
-    pub static mut ARG_TRB_PCLK: u8 = 0xFF;
+
+    // All harness state lives in ONE static whose first field is a magic number. (Kani 0.68 merges a constant allocation with a `static mut`
+    // that has the same initial bytes: with separate `static mut X: u8 = 0` items the constant `MotionVectorRange::Extended` was compiled as a
+    // read of one of them and changed when the harness wrote it. A struct with a distinctive initial value cannot collide with a constant.)
+    pub struct St {
+        pub magic: u64,
+        pub log: [u8; 32],
+        pub nlog: usize,
+        pub fail_at: usize,
+        pub pt_opts: u32,
+        pub pt_plus: bool,
+        pub pt_fmt: u8,
+        pub pt_type: u8,
+        pub pp_opts: u32,
+        pub pp_fmt: u8, // 0: None
+        pub pp_type: u8,
+        pub pp_follow: u8,
+        pub pp_hasopp: bool,
+        pub cpm_a: u8, // first call
+        pub cpm_b: u8, // second call
+        pub ncpm: u8,
+        pub trp: u16,
+        pub trp_some: bool,
+        pub trb: u8,
+        pub arg_plus_dec: u8,
+        pub arg_plus_prev: u32,
+        pub arg_elnum_follow: u8,
+        pub arg_trb_pclk: u8,
+        pub sc_skip: u32,
+        pub arg_skip: u32,
+        pub vals: [u8; 4],
+        pub nrd: usize,
+    }
+    pub static mut ST: St = St {
+        magic: 0x5EED_C0DE_0BAD_F00D,
+        log: [0; 32],
+        nlog: 0,
+        fail_at: 99,
+        pt_opts: 0,
+        pt_plus: false,
+        pt_fmt: 0,
+        pt_type: 0,
+        pp_opts: 0,
+        pp_fmt: 0,
+        pp_type: 0,
+        pp_follow: 0,
+        pp_hasopp: false,
+        cpm_a: 0,
+        cpm_b: 0,
+        ncpm: 0,
+        trp: 0,
+        trp_some: false,
+        trb: 0,
+        arg_plus_dec: 0xFF,
+        arg_plus_prev: 0xFFFF_FFFF,
+        arg_elnum_follow: 0xFF,
+        arg_trb_pclk: 0xFF,
+        sc_skip: 0,
+        arg_skip: 0,
+        vals: [0; 4],
+        nrd: 0,
+    };
 
     fn log(tag: u8) -> bool {
         unsafe {
-            let k = NLOG;
-            if k < 24 {
-                LOG[k] = tag;
+            let k = ST.nlog;
+            if k < 32 {
+                ST.log[k] = tag;
             }
-            NLOG = k + 1;
-            k == FAIL_AT
+            ST.nlog = k + 1;
+            k == ST.fail_at
         }
     }
     pub fn fmt_of(c: u8) -> Option<SourceFormat> {
@@ -106,31 +147,31 @@ pub mod asm {
             return Err(Error::InvalidBitstream);
         }
         unsafe {
-            let o = PictureOption::from_bits_truncate(PT_OPTS);
-            if PT_PLUS {
+            let o = PictureOption::from_bits_truncate(ST.pt_opts);
+            if ST.pt_plus {
                 Ok((o, None))
             } else {
-                Ok((o, Some((fmt_of(1 + PT_FMT % 6).unwrap(), type_of(PT_TYPE)))))
+                Ok((o, Some((fmt_of(1 + ST.pt_fmt % 6).unwrap(), type_of(ST.pt_type)))))
             }
         }
     }
     pub fn s_plusptype<R: Read>(_r: &mut H263Reader<R>, d: DecoderOption, prev: PictureOption) -> Result<PlusPType> {
         unsafe {
-            ARG_PLUS_DEC = d.bits();
-            ARG_PLUS_PREV = prev.bits();
+            ST.arg_plus_dec = d.bits();
+            ST.arg_plus_prev = prev.bits();
         }
         if log(T_PLUS) {
             return Err(Error::InvalidBitstream);
         }
-        unsafe { Ok((PictureOption::from_bits_truncate(PP_OPTS), fmt_of(PP_FMT % 7), type_of(PP_TYPE), PlusPTypeFollower::from_bits_truncate(PP_FOLLOW), PP_HASOPP)) }
+        unsafe { Ok((PictureOption::from_bits_truncate(ST.pp_opts), fmt_of(ST.pp_fmt % 7), type_of(ST.pp_type), PlusPTypeFollower::from_bits_truncate(ST.pp_follow), ST.pp_hasopp)) }
     }
     pub fn s_cpm<R: Read>(_r: &mut H263Reader<R>) -> Result<Option<u8>> {
         if log(T_CPM) {
             return Err(Error::InvalidBitstream);
         }
         unsafe {
-            NCPM += 1;
-            let v = if NCPM == 1 { CPM_A } else { CPM_B };
+            ST.ncpm += 1;
+            let v = if ST.ncpm == 1 { ST.cpm_a } else { ST.cpm_b };
             Ok(if v & 4 == 4 { Some(v & 3) } else { None })
         }
     }
@@ -160,7 +201,7 @@ pub mod asm {
     }
     pub fn s_elnum<R: Read>(_r: &mut H263Reader<R>, f: PlusPTypeFollower) -> Result<ScalabilityLayer> {
         unsafe {
-            ARG_ELNUM_FOLLOW = f.bits();
+            ST.arg_elnum_follow = f.bits();
         }
         if log(T_ELNUM) {
             return Err(Error::InvalidBitstream);
@@ -177,7 +218,7 @@ pub mod asm {
         if log(T_TRPI) {
             return Err(Error::InvalidBitstream);
         }
-        unsafe { Ok(if TRP_SOME { Some(TRP) } else { None }) }
+        unsafe { Ok(if ST.trp_some { Some(ST.trp) } else { None }) }
     }
     pub fn s_bcm<R: Read>(_r: &mut H263Reader<R>) -> Result<Option<BackchannelMessage>> {
         if log(T_BCM) {
@@ -193,12 +234,12 @@ pub mod asm {
     }
     pub fn s_trb<R: Read>(_r: &mut H263Reader<R>, pclk: bool) -> Result<u8> {
         unsafe {
-            ARG_TRB_PCLK = pclk as u8;
+            ST.arg_trb_pclk = pclk as u8;
         }
         if log(T_TRB) {
             return Err(Error::InvalidBitstream);
         }
-        unsafe { Ok(TRB) }
+        unsafe { Ok(ST.trb) }
     }
     pub fn s_dbquant<R: Read>(_r: &mut H263Reader<R>) -> Result<BPictureQuantizer> {
         if log(T_DBQ) {
@@ -213,6 +254,38 @@ pub mod asm {
         Ok(Vec::new())
     }
 
+    pub const T_SC: u8 = 0x40;
+    pub const T_SKIP: u8 = 0x41;
+    pub const T_RD: u8 = 0x80; // | width
+    impl<R: Read> H263Reader<R> {
+        pub fn verif_s_recognize(&mut self, in_error: bool) -> Result<Option<u32>> {
+            if log(T_SC) || in_error {
+                return Err(Error::InvalidBitstream);
+            }
+            unsafe { Ok(Some(ST.sc_skip)) }
+        }
+        pub fn verif_s_skip(&mut self, n: u32) -> Result<()> {
+            unsafe {
+                ST.arg_skip = n;
+            }
+            if log(T_SKIP) {
+                return Err(Error::InvalidBitstream);
+            }
+            Ok(())
+        }
+        pub fn verif_s_read_bits<T: crate::traits::BitReadable>(&mut self, n: u32) -> Result<T> {
+            if log(T_RD | (n as u8 & 0x3F)) {
+                return Err(Error::InvalidBitstream);
+            }
+            unsafe {
+                let k = ST.nrd;
+                ST.nrd = k + 1;
+                let v = if k < 4 { ST.vals[k] } else { 0 };
+                Ok(T::from(v))
+            }
+        }
+    }
+
     fn bits(all: &[u8; 6], pos: usize, n: usize) -> u32 {
         let mut acc = 0u32;
         let mut k = 0;
@@ -224,13 +297,18 @@ pub mod asm {
         acc
     }
 
-    pub fn std_assembly() {
-        // stream: start code at bit 0, then GN (5), TR (8), [ETR (2)], PQUANT (5) - the stubs consume nothing
-        let mut all: [u8; 6] = kani::any();
-        all[0] = 0;
-        all[1] = 0;
-        all[2] = 0x80 | (all[2] & 0x7F);
-        let gn = bits(&all, 17, 5);
+    pub fn std_assembly<const INJECT: bool, const CASE: u8>() {
+        // what the reader delivers to decode_picture's own reads, in order: GN (5 bits), TR (8), [ETR (2)], PQUANT (5)
+        let all: [u8; 6] = [0; 6];
+        let vals: [u8; 4] = kani::any();
+        kani::assume(vals[0] < 32);
+        let sc_skip: u32 = kani::any();
+        kani::assume(sc_skip <= 8);
+        unsafe {
+            ST.vals = vals;
+            ST.sc_skip = sc_skip;
+        }
+        let gn = vals[0] as u32;
         let dec_bits: u8 = kani::any();
         kani::assume(dec_bits & 1 == 0 && dec_bits < 4); // standard mode; scalability on or off
         let dec = DecoderOption::from_bits_truncate(dec_bits);
@@ -245,43 +323,43 @@ pub mod asm {
             pb_quantizer: None, extra: Vec::new(),
         };
         unsafe {
-            FAIL_AT = kani::any();
-            PT_OPTS = kani::any();
-            PT_PLUS = kani::any();
-            PT_FMT = kani::any();
-            PT_TYPE = kani::any();
-            kani::assume(PT_TYPE < 2); // PTYPE codes I or P
-            PP_OPTS = kani::any();
-            PP_FMT = kani::any();
-            PP_TYPE = kani::any();
-            kani::assume(PP_TYPE < 8);
-            PP_FOLLOW = kani::any();
-            kani::assume(PP_FOLLOW < 64);
-            PP_HASOPP = kani::any();
-            CPM_A = kani::any();
-            CPM_B = kani::any();
-            kani::assume(CPM_A < 8 && CPM_B < 8);
-            TRP = kani::any();
-            TRP_SOME = kani::any();
-            TRB = kani::any();
+            ST.fail_at = if INJECT { kani::any() } else { 99 };
+            ST.pt_opts = kani::any();
+            ST.pt_plus = if CASE == 0 { false } else if CASE == 1 { true } else { kani::any() };
+            ST.pt_fmt = kani::any();
+            ST.pt_type = kani::any();
+            kani::assume(ST.pt_type < 2); // PTYPE codes I or P
+            ST.pp_opts = kani::any();
+            ST.pp_fmt = kani::any();
+            ST.pp_type = kani::any();
+            kani::assume(ST.pp_type < 8);
+            ST.pp_follow = kani::any();
+            kani::assume(ST.pp_follow < 64);
+            ST.pp_hasopp = kani::any();
+            ST.cpm_a = kani::any();
+            ST.cpm_b = kani::any();
+            kani::assume(ST.cpm_a < 8 && ST.cpm_b < 8);
+            ST.trp = kani::any();
+            ST.trp_some = kani::any();
+            ST.trb = kani::any();
         }
         let mut rd = H263Reader::from_source(&all[..]);
         let res = decode_picture(&mut rd, dec, if has_prev { Some(&prev) } else { None });
 
         // ---- the Recommendation's order and presence conditions -------------------------------------------------------------------
-        let (pt_opts, plus, pp_opts, follow, pp_type, pt_type) = unsafe { (PT_OPTS & 0x1FFFF, PT_PLUS, PP_OPTS & 0x1FFFF, PP_FOLLOW, PP_TYPE, PT_TYPE) };
+        let (pt_opts, plus, pp_opts, follow, pp_type, pt_type) = unsafe { (ST.pt_opts & 0x1FFFF, ST.pt_plus, ST.pp_opts & 0x1FFFF, ST.pp_follow, ST.pp_type, ST.pt_type) };
         let opts = if plus { pt_opts | pp_opts } else { pt_opts };
         let ptype_code = if plus { pp_type } else { pt_type };
         let fmt: Option<SourceFormat> = if plus {
-            if follow & 1 == 1 { Some(SourceFormat::Extended(cpfmt_tag())) } else { unsafe { fmt_of(PP_FMT % 7) } }
+            if follow & 1 == 1 { Some(SourceFormat::Extended(cpfmt_tag())) } else { unsafe { fmt_of(ST.pp_fmt % 7) } }
         } else {
-            unsafe { fmt_of(1 + PT_FMT % 6) }
+            unsafe { fmt_of(1 + ST.pt_fmt % 6) }
         };
         let rps = opts & PictureOption::REFERENCE_PICTURE_SELECTION.bits() != 0;
         let rpr = opts & PictureOption::REFERENCE_PICTURE_RESAMPLING.bits() != 0;
         let fmt_changed = has_prev && prev.format.is_some() && fmt.is_some() && prev.format != fmt;
         let pb = ptype_code == 2 || ptype_code == 3;
-        let mut exp: [u8; 24] = [0; 24];
+        let mut exp: [u8; 32] = [0; 32];
         let mut n = 0;
         macro_rules! push {
             ($t:expr) => {{
@@ -289,6 +367,11 @@ pub mod asm {
                 n += 1;
             }};
         }
+        push!(T_SC);
+        push!(T_SKIP);
+        push!(T_RD | 5); // GN
+        let n_gob = n;
+        push!(T_RD | 8); // TR
         push!(T_PTYPE);
         if plus {
             push!(T_PLUS);
@@ -300,6 +383,7 @@ pub mod asm {
         let clock = plus && follow & 2 != 0;
         if clock {
             push!(T_CPCFC);
+            push!(T_RD | 2); // ETR
         }
         if plus && follow & 4 != 0 {
             push!(T_UUI);
@@ -320,6 +404,7 @@ pub mod asm {
         if rpr || fmt_changed {
             push!(T_RPRP);
         }
+        push!(T_RD | 5); // PQUANT
         if !plus {
             push!(T_CPM);
         }
@@ -329,62 +414,75 @@ pub mod asm {
         }
         push!(T_PEI);
 
-        let (nlog, fail_at) = unsafe { (NLOG, FAIL_AT) };
-        if gn != 0 {
-            // a GOB header, not a picture header: nothing is parsed
-            assert!(matches!(res, Ok(None)) && nlog == 0, "picture.decode_picture.std_gob: a non-zero group number after the start code is not a picture header and no field is parsed");
+        let (nlog, fail_at) = unsafe { (ST.nlog, ST.fail_at) };
+        if gn != 0 && fail_at >= n_gob {
+            // a GOB header, not a picture header: nothing more is parsed
+            assert!(matches!(res, Ok(None)) && nlog == n_gob, "picture.decode_picture.std_gob: a non-zero group number after the start code is not a picture header and no field is parsed");
             core::mem::forget(res);
             return;
+        }
+        if gn != 0 {
+            n = n_gob;
         }
         // calls made == the expected prefix (all of it unless a parser failed)
         let made = if fail_at < n { fail_at + 1 } else { n };
         assert!(nlog == made, "picture.decode_picture.std_order_len: exactly the fields the Recommendation prescribes for this PTYPE / PLUSPTYPE / mode set are parsed (up to the first failing one)");
         let mut k = 0;
         let mut same = true;
-        while k < 24 {
-            if k < made && unsafe { LOG[k] } != exp[k] {
+        while k < 32 {
+            if k < made && unsafe { ST.log[k] } != exp[k] {
                 same = false;
             }
             k += 1;
         }
-        assert!(same, "picture.decode_picture.std_order: the fields are parsed in the order of H.263 5.1 (PTYPE PLUSPTYPE CPM/PSBI CPFMT CPCFC [ETR] UUI SSS ELNUM/RLNUM RPSMF TRPI/TRP BCI/BCM RPRP [PQUANT] CPM/PSBI TRB DBQUANT PEI)");
-        if plus && made >= 2 {
+        assert!(same, "picture.decode_picture.std_order: the fields are parsed in the order of H.263 5.1 (PSC GN TR PTYPE PLUSPTYPE CPM/PSBI CPFMT CPCFC ETR UUI SSS ELNUM/RLNUM RPSMF TRPI/TRP BCI/BCM RPRP PQUANT CPM/PSBI TRB DBQUANT PEI) with the widths 5, 8, 2, 5 of GN, TR, ETR, PQUANT");
+        if made >= 2 {
+            assert!(unsafe { ST.arg_skip } == 17 + sc_skip, "picture.decode_picture.std_psc: the stuffing reported by the start-code search and the 17 start-code bits are skipped");
+        }
+        if plus && made >= 6 {
             let want_prev = if has_prev { prev_opts & 0x1FFFF } else { 0 };
-            assert!(unsafe { ARG_PLUS_DEC } == dec_bits && unsafe { ARG_PLUS_PREV } == want_prev, "picture.decode_picture.std_plusptype_args: PLUSPTYPE inherits from the previous header's options (none: the empty set)");
+            assert!(unsafe { ST.arg_plus_dec } == dec_bits && unsafe { ST.arg_plus_prev } == want_prev, "picture.decode_picture.std_plusptype_args: PLUSPTYPE inherits from the previous header's options (none: the empty set)");
         }
         match res {
             Err(e) => {
-                assert!(fail_at < n, "picture.decode_picture.std_err: decode_picture fails only when a field fails (the stream holds enough bits here)");
+                assert!(fail_at < n, "picture.decode_picture.std_err: decode_picture fails only when a field or a read fails");
                 core::mem::forget(e);
             }
             Ok(None) => assert!(false, "picture.decode_picture.std_some: a picture header yields a header record"),
             Ok(Some(p)) => {
                 assert!(fail_at >= n, "picture.decode_picture.std_err_propagates: a failing field parser fails the header");
-                let tr = bits(&all, 22, 8);
-                let (want_tr, qpos) = if clock { ((bits(&all, 30, 2) << 8) | tr, 32) } else { (tr, 30) };
+                let tr = vals[1] as u32;
+                let (want_tr, want_q) = if clock { (((vals[2] as u32) << 8) | tr, vals[3]) } else { (tr, vals[2]) };
                 assert!(p.version.is_none() && p.temporal_reference as u32 == want_tr, "picture.decode_picture.std_tr: TR, extended by ETR as the two high bits when a custom picture clock is signalled");
-                assert!(p.quantizer as u32 == bits(&all, qpos, 5), "picture.decode_picture.std_pquant: PQUANT is the five bits after the optional fields");
+                assert!(p.quantizer == want_q, "picture.decode_picture.std_pquant: PQUANT is the five-bit field read after the optional fields");
                 assert!(p.format == fmt, "picture.decode_picture.std_format: PTYPE / PLUSPTYPE source format, replaced by CPFMT when a custom format follows");
                 assert!(p.options.bits() == opts, "picture.decode_picture.std_options: PTYPE options united with the PLUSPTYPE options");
-                assert!(p.has_plusptype == plus && p.has_opptype == (plus && unsafe { PP_HASOPP }), "picture.decode_picture.std_plus_flags");
+                assert!(p.has_plusptype == plus && p.has_opptype == (plus && unsafe { ST.pp_hasopp }), "picture.decode_picture.std_plus_flags");
                 assert!(type_code(&p.picture_type) == ptype_code, "picture.decode_picture.std_type: picture coding type from PTYPE, from MPPTYPE when PLUSPTYPE is present");
-                assert!(matches!(p.motion_vector_range, Some(MotionVectorRange::Extended)) == (plus && follow & 4 != 0) && (p.motion_vector_range.is_none() == !(plus && follow & 4 != 0)), "picture.decode_picture.std_uui");
+                let want_uui = plus && follow & 4 != 0;
+                let got_uui = match &p.motion_vector_range {
+                    Some(MotionVectorRange::Extended) => 1,
+                    Some(MotionVectorRange::Unlimited) => 2,
+                    None => 0,
+                };
+                assert!(got_uui == if want_uui { 1 } else { 0 }, "picture.decode_picture.std_uui: the motion vector range of UUI exactly when PLUSPTYPE announces it");
                 assert!(p.slice_submode.as_ref().map(|m| m.bits()) == if plus && follow & 8 != 0 { Some(2) } else { None }, "picture.decode_picture.std_sss");
                 assert!(p.scalability_layer.as_ref().map(|l| (l.enhancement, l.reference)) == if dec_bits & 2 != 0 { Some((9, Some(4))) } else { None }, "picture.decode_picture.std_layer");
                 if dec_bits & 2 != 0 {
-                    assert!(unsafe { ARG_ELNUM_FOLLOW } == if plus { follow } else { 0 }, "picture.decode_picture.std_elnum_args: RLNUM presence is decided by this header's PLUSPTYPE");
+                    assert!(unsafe { ST.arg_elnum_follow } == if plus { follow } else { 0 }, "picture.decode_picture.std_elnum_args: RLNUM presence is decided by this header's PLUSPTYPE");
                 }
                 assert!(p.reference_picture_selection_mode.as_ref().map(|m| m.bits()) == if plus && follow & 32 != 0 { Some(2) } else { None }, "picture.decode_picture.std_rpsmf");
-                assert!(p.prediction_reference == if rps && unsafe { TRP_SOME } { Some(unsafe { TRP }) } else { None }, "picture.decode_picture.std_trp");
+                assert!(p.prediction_reference == if rps && unsafe { ST.trp_some } { Some(unsafe { ST.trp }) } else { None }, "picture.decode_picture.std_trp");
                 assert!(p.backchannel_message.is_none() && p.reference_picture_resampling.is_none(), "picture.decode_picture.std_bcm_rprp");
-                let cpm = unsafe { CPM_A };
+                let cpm = unsafe { ST.cpm_a };
                 assert!(p.multiplex_bitstream == if cpm & 4 == 4 { Some(cpm & 3) } else { None }, "picture.decode_picture.std_cpm: CPM/PSBI from its single occurrence (after PLUSPTYPE, else after PQUANT)");
-                assert!(p.pb_reference == if pb { Some(unsafe { TRB }) } else { None } && matches!(p.pb_quantizer, Some(BPictureQuantizer::Seven)) == pb && p.pb_quantizer.is_none() == !pb, "picture.decode_picture.std_trb_dbquant: TRB / DBQUANT exactly for PB and Improved PB pictures");
+                assert!(p.pb_reference == if pb { Some(unsafe { ST.trb }) } else { None } && matches!(p.pb_quantizer, Some(BPictureQuantizer::Seven)) == pb && p.pb_quantizer.is_none() == !pb, "picture.decode_picture.std_trb_dbquant: TRB / DBQUANT exactly for PB and Improved PB pictures");
                 if pb {
-                    assert!(unsafe { ARG_TRB_PCLK } == clock as u8, "picture.decode_picture.std_trb_args: TRB is five bits wide exactly when a custom picture clock is signalled in this header");
+                    assert!(unsafe { ST.arg_trb_pclk } == clock as u8, "picture.decode_picture.std_trb_args: TRB is five bits wide exactly when a custom picture clock is signalled in this header");
                 }
                 assert!(p.extra.is_empty(), "picture.decode_picture.std_pei");
                 kani::cover!(true, "reach_end");
+                core::mem::forget(p);
             }
         }
     }
